@@ -22,7 +22,7 @@ theorem execFinStale_cases {s s' : Shared} {id : Nat} {f : Bool} {push : List In
   · simp only [Option.some.injEq, Prod.mk.injEq] at h
     exact ⟨s.stale, s.dead, h.1.symm, h.2.1.symm⟩
   · simp only [Option.some.injEq, Prod.mk.injEq] at h
-    exact ⟨true, _, h.1.symm, h.2.1.symm⟩
+    exact ⟨_, _, h.1.symm, h.2.1.symm⟩
 
 /-- Unfold `exec` for the instruction at hand, split every branch, and substitute the result. -/
 syntax "exec_split " ident : tactic
